@@ -150,11 +150,45 @@ def planet():
     return _PLANET
 
 
-def evaluate(kind, kwargs, n, P):
+ROUTES = ('ctor', 'fit', 'fit-after-use')
+
+
+def npoint_by_fit(kwargs, n, P, used):
+    """The same node set reaching NPoint through the OTHER public route: the object is built around valid
+    placeholder nodes (evenly spaced in log P between the end nodes the profile will use) and every intermediate node
+    is then written through its fitting parameter P_pointN / T_pointN (what a retrieval, or `model['P_point1'] = x`,
+    does).  used: the profile is read once on the placeholders first (a sampler moves a node of a live object)."""
+    C = classes()['npoint']
+    tp, pp = list(kwargs['temperature_points']), list(kwargs['pressure_points'])
+    k = len(pp)
+    a = math.log10(kwargs['P_surface']) if kwargs.get('P_surface') else math.log10(float(P[0]))
+    b = math.log10(kwargs['P_top']) if kwargs.get('P_top') else math.log10(float(P[-1]))
+    if not a > b:
+        a, b = math.log10(float(P[0])), math.log10(float(P[-1]))
+    kw = dict(kwargs, temperature_points=[float(kwargs['T_surface'])] * k,
+              pressure_points=[10.0 ** (a + (b - a) * (i + 1) / (k + 1)) for i in range(k)])
+    obj = C(**kw)
+    if used:
+        try:
+            obj.initialize_profile(planet(), n, np.asarray(P, dtype=float))
+            obj.profile
+        except Exception:
+            pass
+    params = obj.fitting_parameters()
+    for i in range(k):
+        params['T_point%d' % (i + 1)][3](tp[i])
+        params['P_point%d' % (i + 1)][3](pp[i])
+    return obj
+
+
+def evaluate(kind, kwargs, n, P, route='ctor'):
     """-> (outcome, profile or None, detail); outcome in ok | invalid | error"""
     from taurex.exceptions import InvalidModelException
     try:
-        obj = classes()[kind](**kwargs)
+        if kind == 'npoint' and route != 'ctor' and len(kwargs.get('pressure_points', ())) > 0:
+            obj = npoint_by_fit(kwargs, n, P, route == 'fit-after-use')
+        else:
+            obj = classes()[kind](**kwargs)
         obj.initialize_profile(planet(), n, np.asarray(P, dtype=float))
         prof = np.array(obj.profile, dtype=float)
         return 'ok', prof, ''
@@ -168,7 +202,7 @@ def evaluate(kind, kwargs, n, P):
 # binding A
 # ----------------------------------------------------------------------------
 
-def vector_call(v):
+def vector_call(v, route='ctor'):
     kind, n = v['kind'], v['n']
     if kind == 'rodgers':
         P = [2.0 ** (20 - k) for k in v['K']]
@@ -182,31 +216,53 @@ def vector_call(v):
             kw['p_points'] = [10.0 ** k for k in v['pp']]
         return evaluate(kind, kw, n, P)
     tn, pn = v['tn'], v['pn']
+    sg = v.get('sg') or [1] * len(pn)
+    nodes = [float(s_) * 10.0 ** k for s_, k in zip(sg, pn)]       # zero and negative node pressures included
     kw = dict(T_surface=TS * tn[0], T_top=TS * tn[-1], temperature_points=[TS * t for t in tn[1:-1]],
-              pressure_points=[10.0 ** k for k in pn[1:-1]], smoothing_window=v['sw'], limit_slope=TS * v['lim'])
+              pressure_points=nodes[1:-1], smoothing_window=v['sw'], limit_slope=TS * v['lim'])
     if pn[0] != v['lp'][0]:
-        kw['P_surface'] = 10.0 ** pn[0]
+        kw['P_surface'] = nodes[0]
     if pn[-1] != v['lp'][-1]:
-        kw['P_top'] = 10.0 ** pn[-1]
-    return evaluate(kind, kw, n, P)
+        kw['P_top'] = nodes[-1]
+    return evaluate(kind, kw, n, P, route=route)
 
 
-def run_vector(ctx, v, stats):
+def node_signs(sg):
+    """class name of the signs of the intermediate node pressures"""
+    mid = sg[1:-1]
+    if all(s_ == 1 for s_ in mid):
+        return 'pos'
+    return '+'.join(sorted({'neg' if s_ < 0 else 'zero' for s_ in mid if s_ != 1}))
+
+
+def run_vector(ctx, v, stats, route=None):
     kind, n = v['kind'], v['n']
-    outcome, prof, detail = vector_call(v)
+    if kind == 'npoint' and len(v['tn']) > 2:
+        if route is None:
+            # positive node sets: one route per vector, all three over the export; a node set with a zero or
+            # negative node is replayed through every route by the caller
+            route = ROUTES[(sum(v['tn']) + sum(v['pn']) + n + v['sw']) % len(ROUTES)]
+    else:
+        route = 'ctor'
+    outcome, prof, detail = vector_call(v, route)
     if kind == 'npoint':
-        cls = 'npoint:k%d:sw%d:%s' % (len(v['tn']) - 2, v['sw'], v['st'])
+        sgn = node_signs(v.get('sg') or [1] * len(v['pn']))
+        cls = 'npoint:k%d:sw%d:%s:%s%s' % (len(v['tn']) - 2, v['sw'], v['st'], route, '' if sgn == 'pos' else ':nodes-' + sgn)
     elif kind == 'array':
         cls = 'array:%s' % v['pmode']
     else:
         cls = kind
-    vec = dict(v, kind_='vector')
+    vec = dict(v, kind_='vector', route=route)
     ok = lambda clause, cond, d='': ctx.verdict(clause, bool(cond), cls=cls, detail=d or detail, vector=vec)
     tie = False
     if kind == 'npoint':
         if v['strict']:
+            if outcome == 'ok' and prof is not None:
+                pr = np.asarray(prof, dtype=float).ravel()
+                detail = 'returned a profile with %d of %d layers not finite, first layers %r' % (int((~np.isfinite(pr)).sum()), pr.size, pr[:4].tolist())
             ok('nonphysical_rejected', outcome == 'invalid',
-               'nodes T %r logP %r limit %r must be rejected, implementation: %s %s' % (v['tn'], v['pn'], v['lim'], outcome, detail))
+               'nodes T %r log10|P| %r sign(P) %r limit %r (route %s) must be rejected, implementation: %s %s'
+               % (v['tn'], v['pn'], v.get('sg'), v['lim'], route, outcome, detail))
             return
         tie = v['st'] == 'invalid'       # equal nodes / slope exactly at the limit: either outcome is accepted
         if not tie:
@@ -498,13 +554,15 @@ def lat(k):
 def range_event(r):
     kind, n = r['kind'], r['n']
     P = np.logspace(r['pa'] / 100.0, r['pb'] / 100.0, n)
-    e = dict(ev='range', kind=kind, n=n, S=ST, tol=1, tn=[], pn=[], lim=[1, 1])
+    e = dict(ev='range', kind=kind, n=n, S=ST, tol=1, tn=[], pn=[], sg=[], lim=[1, 1])
     if kind == 'iso':
         kw, controls = dict(T=float(r['T'][0])), r['T'][:1]
     elif kind == 'npoint':
         tn, pn = r['T'], r['pn']
+        sg = r.get('sg') or [1] * len(pn)
         kw = dict(T_surface=float(tn[0]), T_top=float(tn[-1]), temperature_points=[float(t) for t in tn[1:-1]],
-                  pressure_points=[lat(k) for k in pn[1:-1]], smoothing_window=r['sw'])
+                  pressure_points=[float(s_) * lat(k) for s_, k in zip(sg[1:-1], pn[1:-1])], smoothing_window=r['sw'])
+        e['sg'] = list(sg)
         if r['ps'] is not None:
             kw['P_surface'] = lat(r['ps'])
         if r['pt'] is not None:
@@ -529,7 +587,7 @@ def range_event(r):
         controls = r['T']
     else:
         raise Machinery('kind ' + kind)
-    outcome, prof, detail = evaluate(kind, kw, n, P)
+    outcome, prof, detail = evaluate(kind, kw, n, P, route=r.get('route', 'ctor'))
     lo, hi = float(min(controls)), float(max(controls))
     e.update(outcome=outcome, lo=int(round(lo * ST)), hi=int(round(hi * ST)), len=-1, v=[], nonfinite=0, nonpos=0, below=0,
              above=0, constbad=0)
@@ -648,13 +706,16 @@ def range_recipes(rng, n):
             pt = g['pb'] + rng.randint(-100, span // 4)
         if g['pa'] in mids or g['pb'] in mids:      # ties with an end node: give the end nodes explicitly (same pow)
             ps, pt = g['pa'], g['pb']
+        sg = [1] * (k + 2)
+        if k >= 1 and rng.random() < 0.12:          # a node pressure is any float: zero or negative, of any magnitude
+            sg[1 + rng.randrange(k)] = rng.choice([-1, -1, 0])
         same = rng.random() < 0.15
         T = [rng.randint(100, 3000)] * (k + 2) if same else [rng.randint(100, 3000) for _ in range(k + 2)]
         lim = None
         if rng.random() < 0.3:
             lim = [rng.choice([2001, 1001, 601, 20001]), 2]
         out.append(dict(g, ev='range', kind='npoint', n=n, T=T, pn=[None] + mids + [None], ps=ps, pt=pt, lim=lim,
-                        sw=rng.choice(SWS + [rng.randint(0, 300)])))
+                        sw=rng.choice(SWS + [rng.randint(0, 300)]), sg=sg, route=rng.choice(ROUTES)))
     for _ in range(2):
         g = rgrid100(rng)
         m = rng.choice([1, 2, 3, 5, n, n + 1, 2 * n])
@@ -726,7 +787,9 @@ def event_cls(r, e):
         if r['kind'] == 'npoint':
             w = int(r['n'] * (r['sw'] / 100.0))
             w += 1 if w % 2 == 0 else 0
-            return 'range:npoint:%s:%s' % ('window>n' if w > r['n'] else 'window<=n', e['outcome'])
+            sgn = node_signs(r.get('sg') or [1, 1])
+            return 'range:npoint:%s:%s:%s%s' % ('window>n' if w > r['n'] else 'window<=n', e['outcome'], r.get('route', 'ctor'),
+                                                '' if sgn == 'pos' else ':nodes-' + sgn)
         return 'range:%s%s' % (r['kind'], ':pp' if r.get('pp') else '')
     if r['ev'] == 'npoint':
         return 'npoint-exact:k%d' % (len(r['T']) - 2)
@@ -846,6 +909,16 @@ def run(ctx):
     for v in vecs:
         run_vector(ctx, v, stats)
     ctx.note('vectors replayed: %d; resampled arrays returned mirrored (top value first): %d' % (len(vecs), stats.get('array_mirrored', 0)))
+    # ---- node pressures anywhere on the real line (zero, negative), through every public route to the nodes
+    ctx.expect_refuted('refute-npoint-order-judged-on-logarithms', 'MC_Temperature', 'RF_Temperature_npoint_logorder.cfg', 'InvalidNeverNaN')
+    res = ctx.check_spec('export-signed-nodes', 'MC_Temperature', 'EX_Temperature_signed_%s.cfg' % ctx.tier, need_actions=('Eval',), workers=1)
+    svecs = dedupe(res.tagged('VEC'))
+    if len(svecs) < 1000 or not all(v['strict'] for v in svecs) or {node_signs(v['sg']) for v in svecs} != {'neg', 'zero'}:
+        raise Machinery('signed-node export: %d vectors, classes %r' % (len(svecs), sorted({node_signs(v['sg']) for v in svecs})))
+    for v in svecs:
+        for route in ROUTES:
+            run_vector(ctx, v, stats, route=route)
+    ctx.note('node sets with a zero or negative intermediate node pressure: %d, each through %s' % (len(svecs), ' / '.join(ROUTES)))
     # ---- file-based profile over its documented options (units, columns, header lines, delimiter, row order)
     ctx.check_spec('exhaustive-file', 'MC_TempFile', 'MC_TempFile_%s.cfg' % ctx.tier, need_actions=('Eval',))
     ctx.expect_refuted('refute-file-punit-on-both', 'MC_TempFile', 'RF_TempFile_punit.cfg', 'WithinControlRange')
@@ -897,7 +970,7 @@ def replay(ctx, violations):
         if v.get('kind_') == 'recipe':
             validate(ctx, [v['recipe']], 'replay', canary=False)
         elif v.get('kind_') == 'vector':
-            run_vector(ctx, {k: w for k, w in v.items() if k != 'kind_'}, stats)
+            run_vector(ctx, {k: w for k, w in v.items() if k not in ('kind_', 'route')}, stats, route=v.get('route'))
         elif v.get('kind_') == 'filevector':
             import tempfile, shutil
             tmp = tempfile.mkdtemp(prefix='c12files_')
